@@ -369,7 +369,9 @@ int main(int argc, char** argv) {
                  }, false});
     S.push_back({"subnormals", 1000, 100000, [](uint64_t i, vf::Rng& r) {
                    for (int k = 0; k < 100; k++) {
-                     uint64_t b = (i * 100 + k < 2000) ? i * 100 + k + 1 : (r.next() & ((1ULL << 52) - 1));
+                     // small significands exhaustively, then every magnitude: a random bit length first, so that
+                     // 1..17-digit shortest decimals all occur (a uniform 52-bit value is almost always 16-17 digits)
+                     uint64_t b = (i * 100 + k < 2000) ? i * 100 + k + 1 : (r.next() & ((1ULL << r.range(1, 52)) - 1));
                      if (!b) b = 1;
                      vf::distinct(b);
                      judge_double(from_bits(b), r, false);
